@@ -488,6 +488,36 @@ pub fn replication_histories(seed: u64, n: usize, max_len: u64, with_crash: Mode
             }
             c.run("probe R".into());
         }
+        // hash, then a block below that node, then close and reopen before the periodic flush: the nodes of a
+        // hash-only proof must have been journalled, or the block that was verified against them is held but
+        // unreadable after the restart
+        if with_crash == Mode::Log && c.sim.h["R"].oracle.len >= 4 && r.chance(1, 2) {
+            *c.out.stats.entry("hash_then_block_reopen_histories".into()).or_insert(0) += 1;
+            for _ in 0..3 {
+                let rl = c.sim.h["R"].oracle.len;
+                let leaf = r.below(rl);
+                if c.sim.h["R"].oracle.held[leaf as usize] || !c.sim.h["W"].oracle.held[leaf as usize] { continue; }
+                let span = if r.chance(1, 2) { 2u64 } else { 4u64 };
+                let lo = leaf - leaf % span;
+                if lo + span > rl { continue; }
+                let ti = lo * 2 + span - 1;
+                let o = c.run(format!("missingt R {ti}"));
+                let nn: u64 = o.strip_prefix("ok ").and_then(|x| x.parse().ok()).unwrap_or(0);
+                let o = c.run(format!("prove W - {ti}:{nn} - -"));
+                if !o.starts_with("ok fork") { continue; }
+                let t = crate::sim::proof_full_txt(c.sim.proof.as_ref().unwrap());
+                c.run(format!("applyp R {t}"));
+                let o = c.run(format!("missing R {leaf}"));
+                let nn: u64 = o.strip_prefix("ok ").and_then(|x| x.parse().ok()).unwrap_or(0);
+                let o = c.run(format!("prove W {leaf}:{nn} - - -"));
+                if !o.starts_with("ok fork") { continue; }
+                let t = crate::sim::proof_full_txt(c.sim.proof.as_ref().unwrap());
+                c.run(format!("applyp R {t}"));
+                c.run("reopen R".into());
+                c.run(format!("get R {leaf}"));
+                c.run("probe R".into());
+            }
+        }
         // dense phase: bring the replica up to date and fetch every block it lacks in a random
         // order, so that gaps are filled next to runs of blocks that arrived earlier
         if with_crash == Mode::Log && c.sim.h["W"].oracle.len <= 48 && r.chance(1, 2) {
